@@ -1,9 +1,12 @@
 #!/bin/bash
-# usage: seed_eval.sh <patch> <prop> [tier]; applies the patch to /repo, runs the check, reverts.
+# usage: seed_eval.sh <patch> <prop> [tier]; applies the patch to a private copy of /repo (so other work on
+# /repo is not disturbed), runs the check against it via VERIF_REPO, removes the copy.
 patch=$1; prop=$2; tier=${3:-quick}
+d=$(mktemp -d /tmp/seedrepo.XXXXXX)
+rsync -a --exclude .git /repo/ $d/
+(cd $d && patch -p1 -s < $patch) || { echo "patch does not apply"; rm -rf $d; exit 2; }
 cd /verif
-git -C /repo apply $patch || { echo "patch does not apply"; exit 2; }
-./check $prop --tier $tier
+VERIF_REPO=$d VERIF_EVIDENCE_DIR=$d/.evidence ./check $prop --tier $tier
 rc=$?
-git -C /repo checkout -- .
+rm -rf $d
 echo "check exit=$rc"
